@@ -98,10 +98,16 @@ where
         // a readiness failure armed for this builder call: the first instance of it that is asked fails, once
         if self.1.fail_call.load(Ordering::SeqCst) == self.2 + 1 {
             // (ops Y: twice in a row — the replacement instance fails its very first readiness check as well)
-            if self.1.fail_left.fetch_sub(1, Ordering::SeqCst) <= 1 {
-                self.1.fail_call.store(0, Ordering::SeqCst);
+            // exactly `fail_left` checks fail, also when several workers ask at the same moment (after `b` all of them are woken)
+            let prev = self.1.fail_left.fetch_sub(1, Ordering::SeqCst);
+            if prev == 0 || prev > 8 {
+                self.1.fail_left.fetch_add(1, Ordering::SeqCst); // someone else took the last one
+            } else {
+                if prev == 1 {
+                    self.1.fail_call.store(0, Ordering::SeqCst);
+                }
+                return std::task::Poll::Ready(Err(Default::default()));
             }
-            return std::task::Poll::Ready(Err(Default::default()));
         }
         self.0.poll_ready(cx)
     }
